@@ -307,10 +307,10 @@ Fixpoint is_subclass_of (fuel : nat) (recs : list recd) (id other : N) : bool :=
 
 (** typ.rs *)
 Definition element_typ (t : mty) : option mty :=
-  match t with MBits _ => Some MBit | MList e => Some e | _ => None end.
-Definition is_bits (t : mty) : bool := match t with MBits _ | MUninit => true | _ => false end.
-Definition is_list (t : mty) : bool := match t with MList _ | MUninit => true | _ => false end.
-Definition is_record (t : mty) : bool := match t with MRecord _ _ | MUninit => true | _ => false end.
+  match t with MBits _ => Some MBit | MList e => Some e | MUnknown => Some MUnknown | _ => None end.
+Definition is_bits (t : mty) : bool := match t with MBits _ | MUninit | MUnknown => true | _ => false end.
+Definition is_list (t : mty) : bool := match t with MList _ | MUninit | MUnknown => true | _ => false end.
+Definition is_record (t : mty) : bool := match t with MRecord _ _ | MUninit | MUnknown => true | _ => false end.
 
 Fixpoint can_cast (s : st) (a b : mty) : bool :=
   match a, b with
